@@ -6,7 +6,7 @@ out = sys.argv[1] if len(sys.argv) > 1 else "/tmp/baseline_run.xml"
 env = dict(os.environ)
 env.pop("QUIMB_VERIF", None)
 cmd = ["/venv/bin/python", "-m", "pytest", "-q", "-p", "no:cacheprovider", "--timeout=900",
-       "--continue-on-collection-errors", "-n", os.environ.get("BASELINE_WORKERS", "14"),
+       "--continue-on-collection-errors", *((["-n", os.environ["BASELINE_WORKERS"]]) if os.environ.get("BASELINE_WORKERS") else []),
        f"--junitxml={out}"]
 r = subprocess.run(cmd, cwd="/repo", env=env, stdout=subprocess.PIPE, stderr=subprocess.STDOUT, text=True)
 print(r.stdout.strip().splitlines()[-1])
